@@ -482,6 +482,8 @@ def diagnose_key(cfg, x, y, full):
     implementation alone, otherwise the bare configuration signature"""
     s = cfg["spec"]
     if s["arch"] == "bn":
+        if cfg["spec"].get("bn_affine") or cfg["spec"].get("bn_trs"):
+            return f"C02:sensitivity:BatchNorm(affine={bool(cfg['spec'].get('bn_affine'))},track_running_stats={bool(cfg['spec'].get('bn_trs'))})-accepted"
         return "C02:sensitivity:BatchNorm(affine=False)-accepted"
     if cfg["gsm_mode"] == "ghost":
         mg = R.micro_grads(s, x, y)
@@ -595,12 +597,12 @@ def detect_loss_variant():
     return ("repaired" if err < 1e-9 else "asCoded"), err
 
 
-def bn_accepted():
-    """is the D3 witness model accepted by validation and by GradSampleModule(strict=True)?"""
+def bn_accepted(spec=None):
+    """is the D3 witness model (or a variant of it) accepted by validation and by GradSampleModule(strict=True)?"""
     from opacus import GradSampleModule
     from opacus.validators import ModuleValidator
 
-    m = R.build(D3_WITNESS["spec"])
+    m = R.build(spec or D3_WITNESS["spec"])
     try:
         errs = ModuleValidator.validate(m, strict=False)
         GradSampleModule(m, strict=True)
@@ -640,6 +642,23 @@ def run(ctx):
                 ctx.property_failure(res[0], res[1], res[2])
         else:
             ctx.variant["bn_affine_false"] = "rejected-by-validation"
+        # every other BatchNorm configuration in training mode couples the samples of a batch as well: whatever validation
+        # accepts must satisfy the bound
+        for aff, trs in ((True, False), (True, True), (False, True)):
+            w = dict(D3_WITNESS, spec=dict(D3_WITNESS["spec"], bn_affine=aff, bn_trs=trs))
+            ctx.count("witness:BatchNorm-variants")
+            if bn_accepted(w["spec"]):
+                for mode in ("hooks", "ew"):
+                    try:
+                        res = neighbour_oracle(dict(w, gsm_mode=mode))
+                    except Exception as e:  # noqa: BLE001 - accepted by validation but refused at the first backward (functorch runs
+                        ctx.count("witness:BatchNorm-variant-raises-at-backward:" + type(e).__name__)   # BatchNorm on single samples): nothing released
+                        continue
+                    if res:
+                        ctx.property_failure(res[0], res[1], res[2])
+                        break
+            else:
+                ctx.count("witness:BatchNorm-variant-rejected-by-validation")
         # 3. failing-input search: neighbouring-batch oracle on the real engine
         for it in range(ctx.n(45, 900) + ctx.n(10, 100)):
             cfg = gen_search_cfg(ctx.rng, ctx.thorough)
